@@ -59,4 +59,12 @@ INFO = {
         "assumptions": ["file sizes, link counts, inode numbers and ids sent to the model are the ones an independent lstat observed"],
         "exhaustive": False,
     },
+    "C15": {
+        "level_text": "Lean 4 theorems about a hand-written executable model of FileTimeMatcher, FileAgeRangeMatcher, NewerMatcher and NewerOptionMatcher over nanosecond timestamps: for every now >= timestamp the age in days/minutes is the floor of the nanosecond difference over the period (so k*period-1ns gives k-1 and k*period gives k), the N/+N/-N reading of that count, each test reads its own timestamp, -newer is strict at nanosecond resolution, -newerXY compares the entry's X with the reference's Y, and the -anewer/-cnewer/-newer aliases. Tied to /repo on every run through in-process find_main with an injected clock over files whose atime/mtime are set with utimensat to the nanosecond (ctime: the clock is placed around the observed values), timestamps sent to the model being those lstat reports.",
+        "level_note": "Trusted: Lean kernel, harness; std::time::SystemTime arithmetic and std::fs::Metadata accessors are exercised, not modelled; -daystart, -newerXt and birth time are outside the property.",
+        "technique": "Lean 4 proof (integer arithmetic on nanosecond counts) + differential correspondence through in-process find_main with injected clock",
+        "rule": "ages k*period+e for k in {0,1,2,3,30,400} (thorough: 12 values up to 400) and e in {-1s,-1ns,0,+1ns,+1s-1ns,+1s,+37s}, plus random sub-second ages, for -atime/-mtime/-amin/-mmin with every N in the same set and 2^40 in the three forms; -ctime/-cmin with the clock placed at observed ctime + k*period + {-1ns,0,1ns,1s}; -newer, -anewer, -cnewer and all nine -newerXY over ~50 entries whose X timestamp is the reference's Y timestamp + {-1s,-1ns,0,1ns,1s} while the other timestamp is a decoy far in the past or future, entries changed before and after the reference file (ctime order). every case is non-trivial; distinct = distinct request lines",
+        "trusted_base": [LEAN_TB, CORR_TB, "std::time and std::fs::Metadata (exercised, not modelled)"],
+        "assumptions": ["timestamps are those an independent lstat reports after setup; the file system stores nanosecond timestamps (ext4)"],
+    },
 }
